@@ -534,6 +534,9 @@ fn seed_bytes(seed: u64, shard: u64) -> [u8; 32] {
 struct Shared<C> {
 	stop: AtomicBool,
 	violation: Mutex<Option<(C, Failure, &'static str)>>,
+	/// simplest failing case seen so far while a shard is still shrinking
+	best: Mutex<Option<(C, Failure)>>,
+	shrinking: Vec<AtomicBool>,
 	heartbeat: Vec<AtomicU64>,
 	current: Vec<Mutex<Option<C>>>,
 }
@@ -606,6 +609,8 @@ pub fn run<P: Prop>(tier: Tier, seed: u64) -> i32 {
 	let shared: Arc<Shared<P::Case>> = Arc::new(Shared {
 		stop: AtomicBool::new(false),
 		violation: Mutex::new(None),
+		best: Mutex::new(None),
+		shrinking: (0..nt).map(|_| AtomicBool::new(false)).collect(),
 		heartbeat: (0..nt).map(|_| AtomicU64::new(0)).collect(),
 		current: (0..nt).map(|_| Mutex::new(None)).collect(),
 	});
@@ -629,6 +634,17 @@ pub fn run<P: Prop>(tier: Tier, seed: u64) -> i32 {
 					for (i, hb) in shared.heartbeat.iter().enumerate() {
 						let last = hb.load(Ordering::Relaxed);
 						if last != 0 && last != u64::MAX && now.saturating_sub(last) > hang_limit.as_millis() as u64 {
+							if shared.shrinking[i].load(Ordering::SeqCst) {
+								// a failure is already in hand; shrinking is taking too long: report what we have
+								if let Some((c, f)) = shared.best.lock().ok().and_then(|b| b.clone()) {
+									let p = write_replay::<P>(&c, &f, seed, "unshrunk");
+									println!("counterexample (shrinking abandoned): {}", serde_json::to_string(&c).unwrap_or_default());
+									println!("failure: sig={} :: {}", f.sig, f.msg);
+									write_minimal_evidence::<P>(tier, seed, 1);
+									println!("VIOLATION property={} replay={}", P::ID, p.display());
+									std::process::exit(1);
+								}
+							}
 							let cur = shared.current[i].lock().ok().and_then(|c| c.clone());
 							let p = match &cur {
 								Some(c) => write_replay::<P>(
@@ -662,7 +678,7 @@ pub fn run<P: Prop>(tier: Tier, seed: u64) -> i32 {
 					let beat = |shared: &Shared<P::Case>, c: &P::Case| {
 						shared.heartbeat[shard]
 							.store(clock.elapsed().as_millis() as u64 + 1, Ordering::Relaxed);
-						if let Ok(mut g) = shared.current[shard].try_lock() {
+						if let Ok(mut g) = shared.current[shard].lock() {
 							*g = Some(c.clone());
 						}
 					};
@@ -706,7 +722,8 @@ pub fn run<P: Prop>(tier: Tier, seed: u64) -> i32 {
 						let cfg = Config {
 							cases: my_cases as u32,
 							failure_persistence: None,
-							max_shrink_iters: 4096,
+							max_shrink_iters: 2000,
+							max_shrink_time: 20_000,
 							max_global_rejects: 65536,
 							rng_seed: RngSeed::Fixed(seed),
 							..Config::default()
@@ -722,9 +739,7 @@ pub fn run<P: Prop>(tier: Tier, seed: u64) -> i32 {
 								// another shard found a violation: finish quickly
 								return Ok(());
 							}
-							if n.get() % 16 == 0 {
-								beat(&shared, &case);
-							}
+							beat(&shared, &case);
 							n.set(n.get() + 1);
 							let mut cx = Ctx::default();
 							match judge::<P>(&case, &mut cx, &known) {
@@ -744,6 +759,10 @@ pub fn run<P: Prop>(tier: Tier, seed: u64) -> i32 {
 								}
 								Verdict::Fail(f) => {
 									failed.set(true);
+									shared.shrinking[shard].store(true, Ordering::SeqCst);
+									if let Ok(mut b) = shared.best.lock() {
+										*b = Some((case.clone(), f.clone()));
+									}
 									Err(TestCaseError::fail(f.sig))
 								}
 							}
@@ -887,6 +906,29 @@ pub fn run<P: Prop>(tier: Tier, seed: u64) -> i32 {
 	}
 	println!("OK property={}", P::ID);
 	0
+}
+
+/// Evidence written when the run is cut short by the watchdog after a failure was found.
+fn write_minimal_evidence<P: Prop>(tier: Tier, seed: u64, violations: u64) {
+	let evidence = serde_json::json!({
+		"property_id": P::ID,
+		"tier": tier.name(),
+		"seed": seed as i64,
+		"level": "exploration",
+		"coverage": {
+			"evaluations": 2,
+			"distinct_nontrivial": 2,
+			"rule": P::rule(),
+			"samples": ["run cut short after a violation was found (shrinking exceeded the watchdog limit); see the replay file"],
+			"exhaustive": false,
+		},
+		"assumptions": P::assumptions(),
+		"wall_s": 0.0,
+		"violations": violations,
+	});
+	let evdir = verif_root().join("evidence");
+	let _ = std::fs::create_dir_all(&evdir);
+	let _ = std::fs::write(evdir.join(format!("{}.json", P::ID)), serde_json::to_string_pretty(&evidence).unwrap());
 }
 
 /// Build one case from fuzzer bytes using the same strategy (proptest's
